@@ -51,7 +51,7 @@ CLAUSES = {
                                   "of `canon`); the tie checks both real forms vs each other, vs their timed "
                                   "machines step by step, and vs `canon`",
     "cancelled awaited futures (a completion order like any other)": "runner_refines_native / runner_native_prefix hold "
-        "for `oc f = cancelled` (both drivers throw CancelledError in; model = the code after fix 2838ebd); tie: every "
+        "for `oc f = cancelled` (both drivers throw CancelledError in; model = the code after fix ac5476b); tie: every "
         "program x outcome vectors with cancelled inputs, pending and already-cancelled, also inside lists and under "
         "try/except E/finally",
     "the decorated coroutine finishes (liveness)": "runner_live (every generator, every schedule: idle loop and not "
